@@ -27,6 +27,16 @@ func relayCfg(id, tier string) relay.Config {
 		}
 		return c
 	}
+	if strings.HasSuffix(tier, "/rescaled") {
+		// the traces of the bound ERC-20 tokens were registered with scale 0 and corrected to scale 2 before the first transfer
+		c := relay.Config{Prop: id, Chains: 2, MaxSends: 2, Depth: 13, TraceScale: 2,
+			Sends:     []string{"A B erc20 3", "B A back 1", "A B erc20+callrevert 1", "B A back+callrevert 1"},
+			RecvForms: []string{"g1"}, AckForms: []string{"g1"}}
+		if strings.HasPrefix(tier, "thorough") {
+			c.MaxSends, c.Depth = 3, 14
+		}
+		return c
+	}
 	if strings.HasSuffix(tier, "/tss") {
 		return relayTSSCfg(id, strings.TrimSuffix(tier, "/tss"))
 	}
@@ -93,7 +103,7 @@ func relayTSSCfg(id, tier string) relay.Config {
 	case "C05":
 		c := relay.Config{Prop: id, TSS: true, Chains: 2, MaxSends: 2, Depth: 9,
 			Sends:     []string{"A B erc20 3", "A B erc20+callrevert 1", "B A native 3"},
-			RecvForms: []string{"g1", "g2"}, AckForms: []string{"g1", "g2", "conflict", "early", "dup2", "altpkt", "altfee"}}
+			RecvForms: []string{"g1", "g2"}, AckForms: []string{"g1", "g2", "conflict", "early", "tssaddr", "dup2", "altpkt", "altfee"}}
 		if tier == "thorough" {
 			c.MaxSends, c.Depth = 3, 12
 		}
@@ -125,10 +135,7 @@ func registerRelay(id string, rule string, assume []string, minClasses int) {
 		id: id,
 		spec: func(tier string) bfs.Spec {
 			cfg := relayCfg(id, tier)
-			d := 170 * time.Second
-			if id == "C04" {
-				d = 420 * time.Second // ten send kinds x three destinations: the quick frontier needs ~100 s on an idle 16-core machine
-			}
+			d := 420 * time.Second // the quick frontiers need 60-120 s on an idle 16-core machine; the deadline leaves room for a loaded one
 			if strings.HasPrefix(tier, "thorough") {
 				d = 25 * time.Minute
 			}
@@ -142,6 +149,8 @@ func registerRelay(id string, rule string, assume []string, minClasses int) {
 			if id == "C03" {
 				t := relayCfg(id, tier+"/big")
 				m["big_amount_variant"] = map[string]interface{}{"unit": t.Scale.String(), "max_sends": t.MaxSends, "depth": t.Depth, "send_menu": t.Sends}
+				t = relayCfg(id, tier+"/rescaled")
+				m["rescaled_trace_variant"] = map[string]interface{}{"trace_scale": t.TraceScale, "registered_first_with": 0, "max_sends": t.MaxSends, "depth": t.Depth, "send_menu": t.Sends}
 			}
 			if id == "C01" || id == "C05" {
 				t := relayCfg(id, tier+"/tss")
@@ -149,7 +158,7 @@ func registerRelay(id string, rule string, assume []string, minClasses int) {
 			}
 			return m
 		},
-		variants: map[string][]string{"C01": {"tss"}, "C05": {"tss"}, "C03": {"big"}}[id],
+		variants: map[string][]string{"C01": {"tss"}, "C05": {"tss"}, "C03": {"big", "rescaled"}}[id],
 		extra: map[string]func(r *ev.Run, tier string) (int64, int64){
 			// BSC- and ETH-secured counterparties: the proof component space of their verifiers (the C08 enumeration) is part of C02 too
 			"C02": func(r *ev.Run, tier string) (int64, int64) { return c08.Run(r, "quick") },
